@@ -65,7 +65,7 @@ TESTED_NOT_PROVED = [
 ERR = {"KeyError": 1, "ValueError": 2, "IndexError": 4}
 KEY_LABEL_DOMAIN = "C16:strings-label-domain"        # known_findings.d/C16.json
 KEY_NAME_CLASH = "C16:bipartite-name-clash"
-VALID_LABEL = re.compile(r"[A-Za-z][A-Za-z0-9_]*\Z")
+VALID_LABEL = re.compile(r"[A-Za-z][!-),-=?-{}~]*\Z")   # = valid_label of coq/proof/C16_Defs.v
 VALID_RULE = re.compile(r"[!-~]+\Z")          # non-empty, printable ASCII without blank
 
 
@@ -451,7 +451,10 @@ def distribution(cases, obss):
 # ------------------------------------------------------------------ generators
 
 LABEL_TRIPLES = [("A", "B", "C"), ("F2", "G_1", "Cl2"), ("a", "Bb", "c9"), ("H2O", "OH", "H"), ("X_", "Y__2", "e5"),
-                 ("r", "R", "S"), ("Na", "N", "a"), ("A1", "A", "A11")]
+                 ("r", "R", "S"), ("Na", "N", "a"), ("A1", "A", "A11"),
+                 # SMILES / formula labels (non-word characters) inside the label domain of the strings theorem
+                 ("CC(=O)O", "C#C", "Fe(OH)3"), ("c1ccccc1", "C=O", "C[C@H](N)C(=O)O"), ("N.N", "C-C", "O=C=O"),
+                 ("CC(=O)O", "CC(=O)OC", "C")]
 RULES2 = [("r", "R2"), ("R1", "R2"), ("k_f", "k_r"), ("r", "r_1")]
 PREFIXES = [("S:", "R:"), (None, None), ("", "R:"), ("sp/", "rx/"), ("S:", None)]
 
@@ -493,8 +496,9 @@ def _small_net(rng, rxs):
     return dict(kept=[], rxns=out, mol=mol)
 
 
-SPECIES_POOL = ["A", "B", "C", "D", "E", "F2", "G_1", "Cl2", "H2O", "e5", "Na", "x", "Y_", "r", "R1"]
-ADV_LABELS = ["_x", "2A", "A B", "A+B", "r_1", "r_2", "R2_1", "S:A", "R:r_1", "x|y", "a>>b", "3", "A*", "-", "rule=z", "1_0", " A"]
+SPECIES_POOL = ["A", "B", "C", "D", "E", "F2", "G_1", "Cl2", "H2O", "e5", "Na", "x", "Y_", "r", "R1",
+                "CC(=O)O", "C#C", "Fe(OH)3", "c1ccccc1", "C=O", "C[C@@H](O)C", "N.N", "C-C", "O=C=O", "CC(C)(C)O"]
+ADV_LABELS = ["[OH-]", "[Na+]", "Na+", "(C)", "=O", "#N", "@x", ".A", "-B", "[C@H]", "_x", "2A", "A B", "A+B", "r_1", "r_2", "R2_1", "S:A", "R:r_1", "x|y", "a>>b", "3", "A*", "-", "rule=z", "1_0", " A"]
 RULE_POOL = ["r", "R1", "R2", "k_f", "q_1", "", "r_1"]
 ADV_RULES = ["a b", "x|y", "rule=q", "id=3", "7"]
 COEFFS = [1, 1, 1, 1, 1, 2, 2, 2, 3, 3, 12, 36, 100, 1000, 7, 4096, 1234567]
@@ -594,6 +598,21 @@ def gen_cases(tier, rng):
         for idx in itertools.combinations(range(len(R)), k):
             net = _small_net(rng, [R[i] for i in idx])
             cases.append(dict(kind="exh-small-%d" % k, net=net, views=_std_views(rng)))
+    # ---- pure catalysts: a species with the same coefficient on both sides that is the ONLY species on one side
+    #      (its self-arc is the only carrier of that side in the species graph), plus ordinary catalysis for contrast
+    cat_labels = [("S", "E", "P"), ("CC(=O)O", "Fe(OH)3", "C#C")]
+    for (S_, E_, P_) in cat_labels:
+        for c in (1, 2, 12):
+            for rx in ([[S_, 1], [E_, c]], [[E_, c]]), ([[E_, c]], [[E_, c], [P_, 2]]), ([[S_, 3], [E_, c]], [[E_, c]]), \
+                      ([[E_, c]], [[E_, c]]), ([[S_, 1], [E_, c]], [[P_, 1], [E_, c]]), ([[E_, c]], [[E_, c + 1]]):
+                net = dict(kept=[], rxns=[[None, "r", rx[0], rx[1]], [None, "q", [[S_, 2]], [[P_, c]]]], mol=[[E_, "enz"]])
+                cases.append(dict(kind="pure-catalyst", net=net, views=_std_views(rng)))
+    # ---- many reactions under one rule: generated ids r_10.. (sorted as strings before r_2), two-digit integer node ids
+    for t in range(12 if quick else 60):
+        net = _rand_net(rng, nsp=rng.randint(6, 10), nrx=rng.randint(11, 15))
+        for q in net["rxns"]:
+            q[1] = "r"
+        cases.append(dict(kind="many-ids", net=net, views=_std_views(rng)))
     # ---- every bipartite flag combination on a few networks (string and integer ids, each prefix pair)
     nsweep = 4 if quick else 16
     for t in range(nsweep):
@@ -647,7 +666,8 @@ LEVEL_TEXT = ("Machine-checked proof (Coq, axiom-free) over an executable model 
               "reactants, products) map, the occurring species, and exactly their molecule labels; "
               "(2) C16_strings_roundtrip (+ C16_side_roundtrip: RXNSide.from_str inverts the side printer, decimal coefficients of any "
               "size): printing with the rule suffix and parsing back returns the same multiset of (rule, reactants, products) for "
-              "labels [A-Za-z][A-Za-z0-9_]* and blank-free rules; C16_label_domain_refuted shows the label restriction is necessary "
+              "labels [A-Za-z][^\\s+*|>]* (a letter, then anything but white space and the separators + * | >: identifiers, formulae, "
+              "SMILES-like labels such as CC(=O)O, C#C, Fe(OH)3) and blank-free rules; C16_label_domain_refuted shows a restriction is necessary "
               "(known finding); (3) C16_species_graph_roundtrip: for every network whose reactions all have reactants and products, "
               "collapse + reconstruction returns the same ids with the same reactant and product coefficient maps, including when "
               "several reactions share a species pair. The model is tied to the Python code by comparing, on every run, the "
